@@ -58,6 +58,7 @@ class RealPosting:
     self.fabric = R.make_event(self.d, "fabric_event", True)
     self.obj.activeobject_task_event = self.task
     # which events does each poster post (same assignment as scenarios.posting)
+    R.auto_proxy(self.d, sc, {"active_object": self.obj, "locking_deque": self.obj.locking_deque})      # attributes the translator bound by itself
     self.bodies = {}
     ei = 0
     posts = sc.info["posts"]
@@ -440,6 +441,7 @@ class RealStopping:
     self.restore = lambda: setattr(ao, "time", __import__("time"))
     self.ev_a = ev.Event(signal="A")
     self.flags = [t.args[0].task_run_event for t in self.sources]
+    R.auto_proxy(self.d, sc, {"active_object": self.obj, "locking_deque": self.obj.locking_deque})      # attributes the translator bound by itself
     self.bodies = {0: self.caller_body(), 1: self.consumer_body()}
     for i, tt in enumerate(info["timer_tids"]):
       self.bodies[tt] = (lambda t=self.sources[i]: t.target(*t.args))
@@ -803,6 +805,7 @@ class RealFabricStart:
     R.shared_attr(d, fab, "fifo_thread", "fabric.fifo_thread")
     R.shared_attr(d, fab, "lifo_thread", "fabric.lifo_thread")
     self.results, self.errors = {}, {}
+    R.auto_proxy(self.d, sc, {"fabric": self.fab})      # attributes the translator bound by itself
     self.bodies = {t: self.body(t, script) for t, script in enumerate(info["scripts"])}
 
   def body(self, t, script):
@@ -972,6 +975,7 @@ class RealRejecting:
     ao.Thread = NewThread
     self.ev_new = ev.Event(signal="W_REJECTED")
     self.outcome = {}
+    R.auto_proxy(self.d, sc, {"active_object": self.obj, "locking_deque": self.obj.locking_deque})      # attributes the translator bound by itself
     self.bodies = {0: self.caller_body(), 1: lambda: obj.run_event(self.task, self.fabric, obj.queue)}
     if info.get("canceller") == "signal":
       self.handoff = R.make_event(d, "handoff", False)
@@ -1183,6 +1187,7 @@ class RealFabricDelivery:
     self.sub_ev = {"A": ev.Event(signal="A"), "B": ev.Event(signal="B")}
     self.prios = [p for (_sg, p) in FABRIC_EVENTS]
     self.errors = {}
+    R.auto_proxy(self.d, sc, {"fabric": self.fab})      # attributes the translator bound by itself
     self.bodies = {0: self.caller_body()}
     for k, kind in enumerate(info["kinds"]):
       self.bodies[1 + k] = self.delivery_body(kind)
@@ -1376,6 +1381,7 @@ class RealAoPubsub:
     self.sub_ev = ev.Event(signal="NEWS")
     self.pend = [ev.Event(signal="P%d" % i) for i in range(info["pending"] + info.get("post_after", 0))]
     self.errors = {}
+    R.auto_proxy(self.d, sc, {"active_object": self.obj, "locking_deque": self.obj.locking_deque, "fabric": self.fab})      # attributes the translator bound by itself
     self.bodies = {0: self.caller_body(), 1: self.guard(1, lambda: obj.run_event(self.task, self.run, obj.queue)),
                    2: self.guard(2, self.delivery)}
 
@@ -1514,6 +1520,7 @@ class RealPublishers:
     fabric.lifo_fabric_queue = R.make_queue(d, "lifo_queue", n)
     self.events = [ev.Event(signal="A") for _ in info["counts"]]
     self.errors = {}
+    R.auto_proxy(self.d, sc, {"fabric": self.fabric})      # attributes the translator bound by itself
     self.bodies = {t: self.body(t, cnt) for t, cnt in enumerate(info["counts"])}
 
   def body(self, t, cnt):
